@@ -19,8 +19,8 @@ result is the same for all such permutations, for inputs of any size.
    reviewed lists of `Spec/Determinism.lean` (a new site breaks the build);
 3. the map→sequence and map→map loops of the loader are insensitive to the order (sorting, pointwise writes,
    `mergeMappings`);
-4. `graph.newGraph` is order independent when no service depends on itself (the full statement is false on the
-   unchanged tree: `Neg/C02.lean`);
+4. `graph.newGraph` is order independent and does not write to the project (full strength since `fix:` 3143716;
+   the function as it was, and the witnesses of its order dependence, are in `Neg/C02.lean`);
 5. the result of a load does not depend on the package-level state other loads leave behind.
 -/
 namespace CV.Det.Props
@@ -287,67 +287,51 @@ example : applyAll (fun (b o : List String) => b ++ o) 3 ["a", "b"] [("a", (some
 
 /-! ## 4. `graph.newGraph` -/
 
-/-- the loop over one service's `depends_on`, **when the service does not depend on itself**: whether it fails,
-the edges it creates (as a set) and whether it runs the `delete` are the same for every iteration order -/
-theorem depLoop_perm_partial (en dis : List String) (name : String) {d d' : AL Bool} (hself : name ∉ akeys d)
-    (hp : d'.Perm d) (st : LoopSt) :
-    (depLoop en dis name d' st).toBool = (depLoop en dis name d st).toBool ∧
-    ∀ s s', depLoop en dis name d st = .ok s → depLoop en dis name d' st = .ok s' →
-      s'.edges.Perm s.edges ∧ s'.selfDeleted = s.selfDeleted := by
-  have hself' : name ∉ akeys d' := fun h => hself ((hp.map Prod.fst).subset h)
+/-- the loop over one service's `depends_on`: whether it fails and the edges it creates (as a set) are the same for
+every iteration order (promoted: before `fix:` 3143716 only for a service that does not depend on itself) -/
+theorem depLoop_perm (en dis : List String) {d d' : AL Bool} (hp : d'.Perm d) (es : List String) :
+    (depLoop en dis d' es).toBool = (depLoop en dis d es).toBool ∧
+    ∀ s s', depLoop en dis d es = .ok s → depLoop en dis d' es = .ok s' → s'.Perm s := by
   constructor
-  · rw [depLoop_toBool en dis name d hself, depLoop_toBool en dis name d' hself']
+  · rw [depLoop_toBool en dis d, depLoop_toBool en dis d']
     simp only [missingReq, hp.any_eq]
   · intro s s' h h'
-    obtain ⟨e1, s1⟩ := depLoop_ok en dis name d hself st s h
-    obtain ⟨e2, s2⟩ := depLoop_ok en dis name d' hself' st s' h'
-    constructor
-    · rw [e1, e2]
-      exact List.Perm.append_left _ ((hp.filter _).map _)
-    · rw [s1, s2]; simp only [missingOpt, hp.any_eq]
+    rw [depLoop_ok en dis d es s h, depLoop_ok en dis d' es s' h']
+    exact List.Perm.append_left _ ((hp.filter _).map _)
 
-/-- without a self dependency the service is left as it was (no mutation of the project) -/
-theorem newGraph_no_mutation_partial (s : Svc) (st : LoopSt) (hself : s.name ∉ akeys s.deps) : svcAfter s st = s :=
-  svcAfter_noSelf s st hself
+/-- the project is left as it was: what `newGraph` returns on success is the list of services it was given -/
+theorem newGraph_no_mutation (svcs : List Svc) (dis : List String) (ss : List Svc)
+    (h : newGraph svcs dis = .ok ss) : ss = svcs := by
+  simp only [newGraph] at h
+  cases hg : graphLoop (svcs.map (·.name)) dis svcs with
+  | error e => simp [hg] at h
+  | ok adj =>
+    simp only [hg] at h
+    split at h
+    · cases h
+    · cases h; rfl
 
 /-- the loop over `project.Services`: whether some service fails does not depend on the order the services are visited in -/
 theorem graphLoop_ok_perm (en dis : List String) {svcs svcs' : List Svc} (hp : svcs'.Perm svcs) :
     (graphLoop en dis svcs').toBool = (graphLoop en dis svcs).toBool := by
   rw [graphLoop_toBool, graphLoop_toBool, hp.all_eq]
 
-/-- **`graph.CheckCycle` is order independent when no service depends on itself**: for services with distinct names,
-whether `newGraph` + the cycle search accept the project is the same for every iteration order of the services map
-(`SvcsPerm` = a permutation of the services composed with a permutation of every `depends_on` map).  The hypothesis
-`NoSelf` cannot be dropped: `Neg.newGraph_order_dependent`. -/
-theorem newGraph_perm_partial {svcs svcs' : List Svc} (dis : List String) (hself : NoSelf svcs)
+/-- **`graph.CheckCycle` is order independent**: for services with distinct names, whether `newGraph` + the cycle
+search accept the project is the same for every iteration order of the services map
+(`SvcsPerm` = a permutation of the services composed with a permutation of every `depends_on` map).
+Full strength since `fix:` 3143716 (before: only without self dependencies, `Neg.newGraphOld_order_dependent`). -/
+theorem newGraph_perm {svcs svcs' : List Svc} (dis : List String)
     (hn : (svcs.map (·.name)).Nodup) (hp : SvcsPerm svcs' svcs) :
-    (newGraph svcs' dis).toBool = (newGraph svcs dis).toBool := newGraph_toBool_perm dis hself hn hp
+    (newGraph svcs' dis).toBool = (newGraph svcs dis).toBool := newGraph_toBool_perm dis hn hp
 
-/-- … and an accepted project is returned unchanged (no mutation) -/
-theorem newGraph_ok_unchanged_partial (svcs : List Svc) (dis : List String) (hself : NoSelf svcs) (ss : List Svc)
-    (h : newGraph svcs dis = .ok ss) : ss = svcs := by
-  simp only [newGraph] at h
-  cases hg : graphLoop (svcs.map (·.name)) dis svcs with
-  | error e => simp [hg] at h
-  | ok p =>
-    obtain ⟨ss', adj⟩ := p
-    simp only [hg] at h
-    split at h
-    · cases h
-    · cases h; exact (graphLoop_ok_shape _ dis svcs hself ss adj hg).1
+/-- non-vacuity: two iteration orders of a project with a self dependency next to an optional missing one -/
+example :
+    SvcsPerm [⟨"b", []⟩, ⟨"a", [("off", false), ("a", true)]⟩] [⟨"a", [("a", true), ("off", false)]⟩, ⟨"b", []⟩] := by
+  refine ⟨[⟨"a", [("off", false), ("a", true)]⟩, ⟨"b", []⟩], List.Perm.swap _ _ _, ?_⟩
+  exact .cons rfl (List.Perm.swap _ _ _) (.cons rfl (List.Perm.refl _) .nil)
 
-/-- non-vacuity: two iteration orders of a three-service project without self dependencies -/
-example : NoSelf [⟨"a", [("b", true), ("off", false)]⟩, ⟨"b", []⟩] ∧
-    SvcsPerm [⟨"b", []⟩, ⟨"a", [("off", false), ("b", true)]⟩] [⟨"a", [("b", true), ("off", false)]⟩, ⟨"b", []⟩] := by
-  refine ⟨?_, [⟨"a", [("off", false), ("b", true)]⟩, ⟨"b", []⟩], List.Perm.swap _ _ _, ?_⟩
-  · intro s hs
-    simp only [List.mem_cons, List.not_mem_nil, or_false] at hs
-    rcases hs with rfl | rfl <;> decide
-  · exact .cons rfl (List.Perm.swap _ _ _) (.cons rfl (List.Perm.refl _) .nil)
-
-/-- non-vacuity of `depLoop_perm_partial`: a loop with an optional missing dependency and no self dependency -/
-example : "a" ∉ akeys ([("b", true), ("off", false)] : AL Bool) ∧
-    depLoop ["a", "b"] ["off"] "a" [("b", true), ("off", false)] ⟨[], false⟩ = .ok ⟨["b"], true⟩ := by decide
+/-- non-vacuity of `depLoop_perm`: a loop with an optional missing dependency -/
+example : depLoop ["a", "b"] ["off"] [("b", true), ("off", false)] [] = .ok ["b"] := by decide
 
 /-! ## 5. package-level state -/
 
